@@ -80,7 +80,8 @@ func (tt *testTrie) match(components []string) bool {
 			child.matched.Add(1)
 			return true
 		}
-		return false
+		// There could be several double-wildcards in a row, all matching nothing.
+		return child != nil && child.match(components)
 	}
 	first, rest := components[0], components[1:]
 	child := tt.children[first]
